@@ -97,9 +97,11 @@ def port_address(ctx, h, doc):
             return False, None, None
         if wire.port_kind(ports[a], "out", so) is None or wire.port_kind(ports[b], "in", to) is None:
             return False, None, None
-        if s.offset != -1 and so == wire.other_index(ports[a], "out"):
-            return False, None, None  # a value-addressed link on the order port: outside the clause
-        if t.offset != -1 and to == wire.other_index(ports[b], "in"):
+        if s.offset != -1 and so == wire.other_index(ports[a], "out") and ports[a]["other_out"] == "order":
+            return False, None, None  # a value-addressed link on the ORDER port: outside the clause
+        if t.offset != -1 and to == wire.other_index(ports[b], "in") and ports[b]["other_in"] == "order":
+            # (a control-flow edge into a block is addressed at the block's control port, offset 0: that is no
+            # order port and stays inside the clause)
             return False, None, None
         exp[(a, so, b, to)] += 1
         if s.offset == -1:
@@ -147,6 +149,23 @@ def check_hugr_case(ctx, case, stratum, do_schema):
                 ctx.disc(None, "port-address", "edges", missing, extra, stratum=stratum, case=case)
         else:
             ctx.count("port-address-not-applicable")
+    # what the program's statements asked for (argument i -> input i; the function of a call after its arguments),
+    # NOT read back from the HUGR: only where the HUGR is exactly what the program built (no history, nothing planted)
+    it = info.get("interp")
+    if it is not None and not case.get("hist") and not case.get("plant") and not cbp and len(nodes) == max(
+            n.idx for n in nodes) + 1:
+        ctx.count("monitor:argument-position")
+        emitted = Counter((a, so, b, to) for (a, so), (b, to) in doc["edges"])
+        for hg, src, node, pos in it.arg_links:
+            if hg is h and emitted[(src.node.idx, src.offset, node.idx, pos)] < 1:
+                ctx.disc(None, "argument-position", [node.idx, pos],
+                         f"edge ({src.node.idx}, {src.offset}) -> ({node.idx}, {pos})",
+                         sorted(k for k in emitted if k[2] == node.idx)[:6], stratum=stratum, case=case)
+        for hg, fn, node, pos in it.static_links:
+            if hg is h and emitted[(fn.idx, 0, node.idx, pos)] < 1:
+                ctx.disc(None, "static-port-address", ["call", node.idx],
+                         f"edge ({fn.idx}, 0) -> ({node.idx}, {pos})",
+                         sorted(k for k in emitted if k[2] == node.idx)[:6], stratum=stratum, case=case)
     # static edges: from a Const / function node to the port right after the value inputs
     if stratum in ("program", "order-heavy") and not cbp:
         from vf.oracles import wire
